@@ -30,7 +30,10 @@ Misc == << T_rec(<<P("u8"), P("u64"), P("u8")>>), T_rec(<<P("u8"), P("u16"), P("
            \* lists whose all-numeric element has three or more fields of different widths: a backend that copies such a list
            \* wholesale relies on its own in-memory layout of the element being the canonical one
            T_list(T_tup(<<P("u8"), P("u16"), P("u32")>>)), T_list(T_tup(<<P("u8"), P("u32"), P("u8")>>)),
-           T_list(T_rec(<<P("u8"), P("u64"), P("u16")>>)), T_list(T_tup(<<P("f32"), P("u8"), P("f64"), P("u16")>>)) >>
+           T_list(T_rec(<<P("u8"), P("u64"), P("u16")>>)), T_list(T_tup(<<P("f32"), P("u8"), P("f64"), P("u16")>>)),
+           \* one variant per pair of core types that can share a flat slot (C04: the backends' own bitcast emitters are executed)
+           T_var(<<P("u32"), P("f32")>>), T_var(<<P("s64"), P("f64")>>), T_var(<<P("u32"), P("f64")>>), T_var(<<P("f32"), P("s64")>>),
+           T_var(<<P("u8"), P("s64")>>), T_res(P("f32"), P("string")), T_res(P("f64"), P("string")) >>
 Reps == << P("u8"), P("u64"), P("f32"), P("string"), T_list(P("u8")), T_list(P("string")), T_opt(P("u32")),
            T_tup(<<P("u8"), P("u64")>>), T_var(<<P("f32"), P("string")>>), T_flags(9),
            T_res(P("string"), P("u16")), T_rec(<<P("string"), P("s16")>>), T_enum(3) >>
